@@ -66,6 +66,8 @@ class Verifier(Stmts):
                     pass
         if 'OutputReference' in registry.classes:
             self.spec_globals['UTXO_MAP'] = MAP(CLS('OutputReference'), CLS('Output'))
+        self.spec_globals['KEYT'] = TUPLE(STR, INT, STR)        # key of the peer book: (host, port, direction)
+        self.spec_globals['ADDRT'] = TUPLE(STR, INT)
         for ci in registry.classes.values():
             self.spec_globals[ci.name] = ci.pyclass
         for pyc, rn in registry.abstract.items():
@@ -1112,13 +1114,18 @@ class Verifier(Stmts):
         """thorough tier: every obligation z3 discharged is offered to cvc5 on exactly the hypotheses z3 used.  'unsat'
         agrees; 'unknown'/timeout says nothing; 'sat' is a disagreement between the solvers and is reported as a checker
         problem (undecided), never silently ignored"""
-        out = {'agree': 0, 'no_answer': 0, 'disagree': []}
+        out = {'agree': 0, 'no_answer': 0, 'disagree': [], 'not_asked': 0}
         keep = self.timeout_ms
         self.timeout_ms = timeout_ms
+        t_start = time.time()
+        budget_s = float(os.environ.get('VERIF_SECOND_OPINION_BUDGET_S', '240'))      # per function / lemma
         try:
             for ob in self.obligations:
                 pr = getattr(ob, 'proof_solver', None)
                 if ob.status != 'discharged' or pr is None:
+                    continue
+                if time.time() - t_start > budget_s:
+                    out['not_asked'] += 1
                     continue
                 r = self.run_cvc5(pr)
                 if r == 'unsat':
